@@ -5,6 +5,7 @@
   implementation trace, and the subject of the monitor theorems in `Props/`.
 -/
 import CppUtil.Core.Basic
+import CppUtil.Monitor.ThreadMon
 
 namespace CppUtil.Monitor
 open CppUtil
@@ -31,6 +32,7 @@ structure MonSt where
   liveNodes : Int := 0
   maxLiveNodes : Int := 0
   nFifoChecks : Nat := 0
+  th : ThreadMon := {}
   /-- first violation found, if any -/
   bad : Option String := none
   /-- counters for the evidence -/
